@@ -352,8 +352,6 @@ class SyncGen:
                 if "arc" in self.feats and t in arc_threads and t not in dropped: c += ["acount", "aclone", "agetmut"]
                 if "cell" in self.feats and "mutex" not in self.feats and "rw" not in self.feats: c.append("cell")
                 if "yield" in self.feats: c.append("yield")
-                if self.safe and t in self.unpark_targets:
-                    c = [w for w in c if w in ("atom", "park", "unpark", "cell")]
                 if not c:
                     break
                 w = rng.choice(c)
@@ -396,13 +394,6 @@ class SyncGen:
                     tb.add(I("park"))
                 elif w == "unpark":
                     targets = [1] + [j for j in range(2, t)] if t != 1 else list(range(2, n + 2))
-                    if self.safe:
-                        # only threads generated so far (lower index) that block nowhere but in park
-                        targets = [j for j in targets if j != 1 and j in tbs and j < t or (t == 1 and j != 1)]
-                        # ... and touch nothing whose wake-up loops reset the token (locks, channels, notify, yield)
-                        ok_ops = {"park", "unpark", "ld", "st", "rmw", "cas", "fence", "rd", "wr", "br", "nop"}
-                        targets = [j for j in targets if all(i["op"] in ok_ops for i in tbs[j].code)]
-                        self.unpark_targets.add(None)
                     if targets:
                         tgt = rng.choice(targets)
                         self.unpark_targets.add(tgt)
